@@ -66,8 +66,11 @@ def tlc(module, cfg, out, workers=8, env=None, timeout=600, heap=None, extra=Non
     jopts = "-Xss1g"
     if dfs:
         jopts += " -Dtlc2.tool.queue.IStateQueue=StateDeque"
-    if heap:
-        jopts += " -Xmx%s" % heap
+    # a bounded heap matters: with the JVM default (1/4 of RAM) TLC spends most of its time in page faults
+    jopts += " -Xmx%s" % (heap or "4g")
+    tmpd = os.path.join(os.path.dirname(out), "jtmp")
+    os.makedirs(tmpd, exist_ok=True)
+    jopts += " -Djava.io.tmpdir=%s" % tmpd          # TLC unpacks its standard modules there; keep /tmp clean
     e["JAVA_TOOL_OPTIONS"] = jopts
     if env:
         e.update(env)
